@@ -1,5 +1,6 @@
 /* pt <reg> <op> <args...> : vnaproperty through the public API; descriptors and values travel as hex bytes */
 #include "vh.h"
+#include <yaml.h>
 
 #define NREG 4
 static vnaproperty_t *reg[NREG];
@@ -68,6 +69,38 @@ static void walk(const vnaproperty_t *node)
 	return;
     default:
 	vh_out("?type%d", t);
+    }
+}
+
+/* the node tree libyaml's parser reports for a document: used to test the libyaml contract of C14 */
+static void ytree(yaml_document_t *doc, yaml_node_t *n)
+{
+    if (n == NULL) { vh_out("?"); return; }
+    switch (n->type) {
+    case YAML_SCALAR_NODE:
+	vh_out("S%c", n->data.scalar.style == YAML_PLAIN_SCALAR_STYLE ? 'p' : 'o');
+	for (size_t i = 0; i < n->data.scalar.length; ++i) vh_out("%02x", n->data.scalar.value[i]);
+	return;
+    case YAML_MAPPING_NODE:
+	vh_out("M{");
+	for (yaml_node_pair_t *p = n->data.mapping.pairs.start; p < n->data.mapping.pairs.top; ++p) {
+	    if (p != n->data.mapping.pairs.start) vh_out(",");
+	    ytree(doc, yaml_document_get_node(doc, p->key));
+	    vh_out(":");
+	    ytree(doc, yaml_document_get_node(doc, p->value));
+	}
+	vh_out("}");
+	return;
+    case YAML_SEQUENCE_NODE:
+	vh_out("Q[");
+	for (yaml_node_item_t *it = n->data.sequence.items.start; it < n->data.sequence.items.top; ++it) {
+	    if (it != n->data.sequence.items.start) vh_out(",");
+	    ytree(doc, yaml_document_get_node(doc, *it));
+	}
+	vh_out("]");
+	return;
+    default:
+	vh_out("?");
     }
 }
 
@@ -171,6 +204,18 @@ int vh_prop(void)
 	LIB(rc = vnaproperty_import_yaml_from_string(&reg[r], d, vh_error_fn, NULL));
 	if (rc == -1) vh_out("fail %s cb=%d/%d", vh_errclass(errno), vh_cb_errors, vh_cb_warnings);
 	else vh_out("ok cb=%d/%d", vh_cb_errors, vh_cb_warnings);
+    } else if (strcmp(op, "yamltree") == 0 && d) {
+	yaml_parser_t parser;
+	yaml_document_t doc;
+	yaml_parser_initialize(&parser);
+	yaml_parser_set_input_string(&parser, (const unsigned char *)d, strlen(d));
+	if (!yaml_parser_load(&parser, &doc)) vh_out("fail parse");
+	else {
+	    vh_out("ok ");
+	    ytree(&doc, yaml_document_get_root_node(&doc));
+	    yaml_document_delete(&doc);
+	}
+	yaml_parser_delete(&parser);
     } else if (strcmp(op, "free") == 0) {
 	LIB(vnaproperty_delete(&reg[r], "."));
 	vh_out("ok");
